@@ -69,4 +69,13 @@ META.update({
                 note="S1 bytes are fully symbolic; soup entries are concretised (one path per sequence)."),
 })
 
+META.update({
+    "C17": dict(design_ref="DESIGN.md 5/C17", technique=TECH,
+                text="Bounded model checking of Walk/Inspect/Preorder against a children table generated from go/types: for every node type with solver-chosen presence patterns (and for parser output of the sentence families) the sequence of visited nodes, their Field/Index paths, pruning at every node index and Preorder's early stop equal the expectation.",
+                note="The property is structural: the solver enumerates presence patterns and prune/stop indices completely within the bound; comparisons are concrete per path."),
+    "C19": dict(design_ref="DESIGN.md 5/C19", technique="translation validation by symbolic execution: compiled Pos()/End() vs an independent translation of the documented POS expressions, 64-bit symbolic positions (z3)",
+                text="Translation validation per node type: the compiled Pos()/End() methods are executed symbolically on a node whose position fields are unconstrained 64-bit symbolic values and compared with an independent translation (own parser of the POS EBNF) of the 'pos ='/'end =' expressions in the type's documentation; equality holds for all field values on every presence pattern explored. Walk's half is C17.",
+                note="Not decided here: byte-for-byte identity of the checked-in generated files with the generators' output, and poslang.EvalPos agreement (reflection)."),
+})
+
 NOT_APPLICABLE = {}
